@@ -199,6 +199,7 @@ static var arg_tuple(char** w, int n) {
 
 /* ---- value printing ----------------------------------------------------------------- */
 static FILE* o; static char* obuf; static size_t olen;
+static FILE* vf_pending = NULL;
 
 static void repr(var v, int depth);
 
@@ -453,6 +454,76 @@ static void do_op(char** w, int n) {
     int r = scan_from_with(arg(w[1]), atoi(w[2]), fmt, arg_tuple(w + 4, n - 4));
     fprintf(o, "ret=%d v=", r);
     for (int i = 4; i < n; i++) { if (i > 4) { fputc(',', o); } repr(arg(w[i]), 0); }
+  }
+  else if (OP("cprintf")) {               /* cprintf spechex lenmod conv A : libc reference for one conversion */
+    char* spec = (char*)keep(unhex(w[1], NULL)); const char* lm = w[2][0] is '-' ? "" : w[2]; char cv = w[3][0];
+    var a = arg(w[4]); char* buf = keep(malloc(8192)); int r = -1;
+    if (strchr("di", cv)) {
+      int64_t v = c_int(a);
+      if (lm[0] is 0) { r = snprintf(buf, 8192, spec, (int)v); }
+      else if (strcmp(lm, "hh") is 0) { r = snprintf(buf, 8192, spec, (int)(signed char)v); }
+      else if (strcmp(lm, "h") is 0) { r = snprintf(buf, 8192, spec, (int)(short)v); }
+      else if (strcmp(lm, "l") is 0) { r = snprintf(buf, 8192, spec, (long)v); }
+      else if (strcmp(lm, "ll") is 0) { r = snprintf(buf, 8192, spec, (long long)v); }
+      else if (strcmp(lm, "j") is 0) { r = snprintf(buf, 8192, spec, (intmax_t)v); }
+      else if (strcmp(lm, "z") is 0) { r = snprintf(buf, 8192, spec, (ssize_t)v); }
+      else if (strcmp(lm, "t") is 0) { r = snprintf(buf, 8192, spec, (ptrdiff_t)v); }
+    } else if (strchr("uoxX", cv)) {
+      int64_t v = c_int(a);
+      if (lm[0] is 0) { r = snprintf(buf, 8192, spec, (unsigned)v); }
+      else if (strcmp(lm, "hh") is 0) { r = snprintf(buf, 8192, spec, (unsigned)(unsigned char)v); }
+      else if (strcmp(lm, "h") is 0) { r = snprintf(buf, 8192, spec, (unsigned)(unsigned short)v); }
+      else if (strcmp(lm, "l") is 0) { r = snprintf(buf, 8192, spec, (unsigned long)v); }
+      else if (strcmp(lm, "ll") is 0) { r = snprintf(buf, 8192, spec, (unsigned long long)v); }
+      else if (strcmp(lm, "j") is 0) { r = snprintf(buf, 8192, spec, (uintmax_t)v); }
+      else if (strcmp(lm, "z") is 0) { r = snprintf(buf, 8192, spec, (size_t)v); }
+      else if (strcmp(lm, "t") is 0) { r = snprintf(buf, 8192, spec, (ptrdiff_t)v); }
+    } else if (strchr("fFeEgGaA", cv)) { r = snprintf(buf, 8192, spec, c_float(a)); }
+    else if (cv is 'c') { r = snprintf(buf, 8192, spec, (int)c_int(a)); }
+    else if (cv is 's') { r = snprintf(buf, 8192, spec, c_str(a)); }
+    else if (cv is 'p') { r = snprintf(buf, 8192, spec, a); }
+    if (r < 0 or r >= 8192) { harness_bug("cprintf"); }
+    fputhex(o, buf, (size_t)r);
+  }
+  else if (OP("fprint")) {                /* fprint pos fmthex args... : print_to a File sink, read the file back */
+    if (vf_pending) { fclose(vf_pending); vf_pending = NULL; }
+    FILE* fp = tmpfile(); if (not fp) { harness_bug("tmpfile"); }
+    struct File fv = { fp }; var f = mk_stack(File, &fv, sizeof fv);
+    int pos = atoi(w[1]); char* fmt = (char*)keep(unhex(w[2], NULL));
+    int r = 0;
+    vf_pending = fp;     /* closed by the next file op if an exception unwinds past us */
+    r = print_to_with(f, pos, fmt, arg_tuple(w + 3, n - 3));
+    vf_pending = NULL;
+    fflush(fp); long sz = ftell(fp); rewind(fp);
+    char* data = keep(malloc((size_t)sz + 1)); size_t got = fread(data, 1, (size_t)sz, fp); fclose(fp);
+    fprintf(o, "ret=%d s=", r); fputhex(o, data, got);
+  }
+  else if (OP("flook")) {                 /* flook %dst texthex : look_from a File holding text; reports consumed position */
+    size_t tn; unsigned char* text = keep(unhex(w[2], &tn));
+    if (vf_pending) { fclose(vf_pending); vf_pending = NULL; }
+    FILE* fp = tmpfile(); if (not fp) { harness_bug("tmpfile"); }
+    fwrite(text, 1, tn, fp); rewind(fp);
+    struct File fv = { fp }; var f = mk_stack(File, &fv, sizeof fv);
+    var d = arg(w[1]);
+    vf_pending = fp;
+    int r = look_from(d, f, 0);
+    vf_pending = NULL;
+    long at = ftell(fp); fclose(fp);
+    fprintf(o, "ret=%d at=%ld v=", r, at); repr(d, 0);
+  }
+  else if (OP("fscan")) {                 /* fscan texthex fmthex dst... */
+    size_t tn; unsigned char* text = keep(unhex(w[1], &tn));
+    char* fmt = (char*)keep(unhex(w[2], NULL));
+    if (vf_pending) { fclose(vf_pending); vf_pending = NULL; }
+    FILE* fp = tmpfile(); if (not fp) { harness_bug("tmpfile"); }
+    fwrite(text, 1, tn, fp); rewind(fp);
+    struct File fv = { fp }; var f = mk_stack(File, &fv, sizeof fv);
+    vf_pending = fp;
+    int r = scan_from_with(f, 0, fmt, arg_tuple(w + 3, n - 3));
+    vf_pending = NULL;
+    long at = ftell(fp); fclose(fp);
+    fprintf(o, "ret=%d at=%ld v=", r, at);
+    for (int i = 3; i < n; i++) { if (i > 3) { fputc(',', o); } repr(arg(w[i]), 0); }
   }
   else if (OP("cstr")) { char* s = c_str(arg(w[1])); fputhex(o, s, strlen(s)); }
   else if (OP("cint")) { fprintf(o, "%" PRId64, c_int(arg(w[1]))); }
